@@ -21,7 +21,7 @@ ASSUMPTIONS = [
 ]
 MANIFEST = {'text': 'structural necessary conditions of table/message agreement: count increments paired with label stores on all paths of new/update, merge transfers the count, every merge relabels '
                     'queued and current messages, every merge site shows the merged lifecycle was never published (or unpublishes it), comparators over lifecycles are key-based.'
-                    " Added: the published table is written only through update/empty/purge/refresh (every key holds exactly one value); delivered messages had their lifecycle marked for the final refresh; the listing's sort key follows the resume links transitively.",
+                    " Added: the published table is written only through update/empty/purge/refresh (every key holds exactly one value); delivered messages had their lifecycle marked for the final refresh; the listing's sort key follows the resume links transitively. Added: the regular refresh leaves its scan loops early only when no marked lifecycle is left to republish.",
             'technique': 'static analysis: MIR path pairing, typestate after merge sites, comparator totality lint'}
 
 
@@ -42,6 +42,8 @@ def run(F, chk):
         check_unpublish(F, st, P4)
         check_marked(F, st, P5)
         check_merge_needs_all_queued(st, P7)
+        P8 = chk.rule('P8', 'the regular refresh republishes every marked lifecycle: its scan loops are left early only when the count of marked lifecycles still to update reached 0')
+        check_refresh_scan_complete(F, st, P8)
     P3.floor('lifecycle stage functions', len(lcstage.find_stage(F)), 1)
     comparators.check(F, O1, where=lambda b: any(re.search(r'Lifecycle\b', t) for t in b.arg_types()), floor=2)
     P6 = chk.rule('P6', 'the published table is written only through update (replace the single value), empty (remove the key), purge and refresh: every key readers see holds exactly one value')
@@ -720,3 +722,76 @@ def check_merge_needs_all_queued(st, P7):
                          'a lifecycle with already delivered messages can be merged away - those messages keep an id that denotes no lifecycle and the counts no longer add up' % body.loc(body.blocks[m].term.sp),
                          where=body.loc(body.blocks[m].term.sp))
     P7.floor('merge sites with a possibly confirmed merged lifecycle', n, 1)
+
+
+# ---------------------------------------------------------------------------------------------
+# P8: the regular refresh reaches every marked lifecycle
+
+def check_refresh_scan_complete(F, st, P8):
+    """Delivered messages of an already published lifecycle only *mark* it; the regular (and final) refresh republishes the
+    marked ones and then clears the marks.  If the scan that looks for the marked lifecycles can stop early for any reason other
+    than "all marked ones were updated", a marked lifecycle keeps its stale snapshot while its mark is cleared: the table's
+    nr_msgs stays below the number of delivered messages carrying that id.  In the body that both updates the table inside
+    loops and clears a mark list: every exit of those loops is the exhaustion of the iterator, or the true edge of
+    `remaining == 0` for a counter initialised with the number of marks and decremented per update."""
+    import lcstage
+    bodies = [st.body] + list(F.closures_of(st.body.path))
+    n = 0
+    for x in bodies:
+        cfg = CFG(x)
+        E = ExprBuilder(cfg, fold_named=True)
+        upd = [blk.i for blk in x.calls() if lcstage.W_DIRTY.match(blk.term.callee.path) and blk.term.callee.path.endswith('::update')]
+        clears = [blk for blk in x.calls() if re.search(r'Vec::<T, A>::clear$', blk.term.callee.path) and 'u32' in (blk.term.args[0].ty or '')]
+        if not upd or not clears:
+            continue
+        loops = cfg.loops()
+        scan = {h: lb for h, lb in loops.items() if any(u in lb for u in upd) and not any(c.i in lb for c in clears)}
+        if not scan:
+            continue
+        P8.fn(x.path)
+        for h, lb in scan.items():
+            for bi in sorted(lb):
+                blk = x.blocks[bi]
+                outs = [s_ for s_ in cfg.succ[bi] if s_ not in lb and not x.blocks[s_].cleanup and x.blocks[s_].term.k != 'unreachable']
+                if not outs:
+                    continue
+                for s_ in outs:
+                    n += 1
+                    P8.sites += 1
+                    why = None
+                    if blk.term.k == 'switch':
+                        c = E.switch_cond(blk)
+                        sc = show(c)
+                        edge_true = None
+                        for v, t in blk.term.d['vals']:
+                            if t == s_:
+                                edge_true = (v != 0)
+                        if edge_true is None and blk.term.d['otherwise'] == s_:
+                            edge_true = [v for v, _ in blk.term.d['vals']] == [0]
+                        if sc.startswith('discr(Iterator::next('):
+                            why = 'iterator exhausted'
+                        elif edge_true is not None:
+                            c2, t2 = guards.normalise(c, edge_true)
+                            if t2 is True and isinstance(c2, tuple) and c2[0] == 'bin' and c2[1] == 'Eq' and c2[3] == ('const', 0) and isinstance(c2[2], tuple) and c2[2][0] == 'place' and len(c2[2]) == 2:
+                                ls_ = x.locals_named(c2[2][1])
+                                ok_cnt = bool(ls_)
+                                for l_ in ls_:
+                                    for (b2, s2, d2) in cfg.defs.get(l_, []):
+                                        if s2 == 'call':
+                                            ok_cnt = ok_cnt and d2.callee.path.endswith('::len')
+                                        else:
+                                            v2 = E.rvalue(d2.rv)
+                                            ok_cnt = ok_cnt and (v2 == ('bin', 'Sub', c2[2], ('const', 1)) or (isinstance(v2, tuple) and v2[0] == 'call' and v2[1].endswith('::len')))
+                                if ok_cnt:
+                                    why = 'no marked lifecycle left to update (%s == 0)' % c2[2][1]
+                    elif blk.term.k == 'goto':
+                        # `break` after the counter test lowers to a goto from a block dominated by the test
+                        for (c, truth, D) in guards.known(cfg, E, bi):
+                            if truth is True and D in lb and isinstance(c, tuple) and c[0] == 'bin' and c[1] == 'Eq' and c[3] == ('const', 0) and isinstance(c[2], tuple) and c[2][0] == 'place':
+                                why = 'no marked lifecycle left to update (%s == 0)' % c[2][1]
+                    if why:
+                        P8.ok(sample={'body': x.path, 'loop_exit_at': x.loc(blk.term.sp), 'because': why})
+                    else:
+                        P8.violation(('refresh-scan-left-early', x.closure_of or x.path), 'the scan that republishes the marked lifecycles can be left at %s for a reason other than {iterator exhausted, all marked lifecycles updated}: '
+                                     'a marked lifecycle behind that point keeps its stale snapshot while the marks are cleared - the table counts fall behind the delivered messages' % x.loc(blk.term.sp), where=x.loc(blk.term.sp))
+    P8.floor('exits of the refresh scan loops', n, 2)
